@@ -29,6 +29,7 @@ class Report:
         self.notes = []
         self.assumptions = []
         self.counts = {}
+        self.errors = []          # rules that could not be evaluated (unsupported construct, vanished anchor)
         self._seen_viol = set()
 
     # ---- recording
@@ -79,8 +80,14 @@ class Report:
             self.assumptions.append(s)
 
     # ---- finishing
+    def new_violations(self):
+        known = load_known(self.prop)
+        return [v for v in self.violations if not any(f["rule"] == v["rule"] and f["construct"] == v["construct"] for f in known)]
+
     def finish(self, explanation, evidence_dir=None, quiet=False):
         known = load_known(self.prop)
+        for e in self.errors:
+            self.notes.append("rule not evaluated: " + e)
         evidence_dir = pathlib.Path(evidence_dir or os.environ.get("VERIF_EVIDENCE_DIR") or (VERIF / "evidence"))
         evidence_dir.mkdir(parents=True, exist_ok=True)
         replay_dir = evidence_dir / "replay"
